@@ -2646,6 +2646,24 @@ func (pid *PID) tryPassivation(reason string) bool {
 		return false
 	}
 
+	// Re-validate under the stop lock. The guards above ran without it and the
+	// deadline that brought the manager here was evaluated before the entry left
+	// the heap: since then the actor may have been stopped, paused or suspended,
+	// or may have handled a message. Returning false lets the manager re-arm the
+	// entry (or drop it when it is paused or unregistered).
+	if !pid.isStateSet(runningState) ||
+		pid.isStateSet(stoppingState) ||
+		pid.isStateSet(suspendedState) ||
+		pid.isStateSet(passivationPausedState) {
+		return false
+	}
+
+	if strategy, ok := pid.passivationStrategy.(*passivation.TimeBasedStrategy); ok {
+		if last := pid.passivationLatestActivity(); !last.IsZero() && time.Since(last) < strategy.Timeout() {
+			return false
+		}
+	}
+
 	verifhook.At("pv.locked", &pid.schedState, 0, 0)
 	pid.unregisterPassivation()
 
